@@ -1,5 +1,499 @@
-(* Proofs/BreakCont.v — under construction *)
+(* Proofs/BreakCont.v — property C07: a host break followed by CONT is
+   transparent to the interrupted program, and inspecting state at a
+   breakpoint does not change the continuation.
+
+   Layout:
+     0. the evaluators never return a tokenizer error ([nosyn]); this is what
+        makes the row of "CONT" (which has a source text) and the row of a
+        plain continue (which has none) render the same caret;
+     1. break-then-CONT = continue, for a running numbered program
+        ([break_cont_running]);
+     2. break-then-CONT while awaiting input re-issues the same request
+        ([break_cont_awaiting]);
+     3. schedules: inserting break/CONT pairs anywhere in a run of
+        continue / reply operations ([break_schedule]);
+     4. inspection at a breakpoint ([cont_runtime_eq], [inspection_runtime],
+        [inspection_then_cont]);
+     5. non-vacuity examples. *)
 From Coq Require Import List NArith ZArith Bool Lia.
 From Abasic Require Import Model.Bytes Model.Num Model.Token Model.Data Model.Lexer Gen.Tables
-     Model.State Model.Eval Model.Interp Proofs.Monad Proofs.Frames Proofs.StoreProofs.
+     Model.State Model.Eval Model.Interp Proofs.Monad Proofs.Frames Proofs.StoreProofs
+     Proofs.ResetProofs Proofs.Safety Proofs.FlagsSim.
 Import ListNotations.
+Local Open Scope nat_scope.
+
+(* ------------------------------------------------------------------ *)
+(* 0. No evaluator returns [ESyntaxTok]: that error is produced by the
+      tokenizer only ([evaluate_impl]). *)
+
+Definition ok_res {A} (r : res A) : Prop :=
+  match r with Err (ESyntaxTok _) _ => False | _ => True end.
+
+Definition nosyn {A} (m : M A) : Prop := forall s, ok_res (fst (m s)).
+
+Lemma nosyn_ret {A} (a : A) : nosyn (ret a). Proof. intros s; exact I. Qed.
+Lemma nosyn_get {A} (f : interp -> A) : nosyn (get f). Proof. intros s; exact I. Qed.
+Lemma nosyn_modify f : nosyn (modify f). Proof. intros s; exact I. Qed.
+Lemma nosyn_panic {A} p : nosyn (@panic A p). Proof. intros s; exact I. Qed.
+Lemma nosyn_out_of_fuel {A} : nosyn (@out_of_fuel A). Proof. intros s; exact I. Qed.
+Lemma nosyn_oracle_miss {A} : nosyn (@oracle_miss A). Proof. intros s; exact I. Qed.
+Lemma nosyn_fail {A} e : (forall t, e <> ESyntaxTok t) -> nosyn (@fail A e).
+Proof. intros H s. cbn. destruct e; try exact I. eapply H; reflexivity. Qed.
+Lemma nosyn_fail_at {A} e l : (forall t, e <> ESyntaxTok t) -> nosyn (@fail_at A e l).
+Proof. intros H s. cbn. destruct e; try exact I. eapply H; reflexivity. Qed.
+Lemma nosyn_lift_res {A} (r : res A) : ok_res r -> nosyn (lift_res r).
+Proof. intros H s; exact H. Qed.
+
+Lemma nosyn_bind {A B} (m : M A) (f : A -> M B) :
+  nosyn m -> (forall a, nosyn (f a)) -> nosyn (bind m f).
+Proof.
+  intros Hm Hf s. unfold bind. specialize (Hm s).
+  destruct (m s) as [[a|e l|p| |] s1]; cbn [fst] in *; try exact Hm. apply Hf.
+Qed.
+
+Lemma nosyn_repeat {S T} n (body : S -> M (S + T)) :
+  (forall acc, nosyn (body acc)) -> forall acc, nosyn (repeat_m n body acc).
+Proof.
+  intros Hb. induction n as [|n IH]; intros acc; cbn [repeat_m].
+  - apply nosyn_out_of_fuel.
+  - apply nosyn_bind; [apply Hb|]. intros [acc'|r]; [apply IH|apply nosyn_ret].
+Qed.
+
+Lemma coerce_data_cases name e :
+  (exists v, coerce_data name e = Ok v) \/ coerce_data name e = Err EDataTypeMismatch None.
+Proof.
+  unfold coerce_data. destruct (ends_with_dollar name); destruct e; eauto.
+Qed.
+
+Lemma ok_res_coerce name e : ok_res (coerce_data name e).
+Proof. destruct (coerce_data_cases name e) as [[v ->]| ->]; exact I. Qed.
+
+Lemma ok_res_create name mi : ok_res (array_create_value name mi).
+Proof.
+  unfold array_create_value. destruct mi as [|m mi]; [exact I|].
+  destruct (existsb _ _); [exact I|].
+  destruct (checked_product _ _); [|exact I].
+  destruct (max_dim_total <? n)%N; exact I.
+Qed.
+
+Lemma ok_res_linear a idx : ok_res (array_linear_index a idx).
+Proof.
+  unfold array_linear_index. destruct (negb _); [exact I|]. destruct (linear_index _ _ _ _); exact I.
+Qed.
+
+Create HintDb nsdb discriminated.
+
+Ltac ns_leaf := solve [ auto 2 with nsdb nocore ].
+
+Ltac ns_step :=
+  lazymatch goal with
+  | |- nosyn (ret _) => apply nosyn_ret
+  | |- nosyn (fail _) => apply nosyn_fail; intros ?; discriminate
+  | |- nosyn (fail_at _ _) => apply nosyn_fail_at; intros ?; discriminate
+  | |- nosyn (panic _) => apply nosyn_panic
+  | |- nosyn out_of_fuel => apply nosyn_out_of_fuel
+  | |- nosyn oracle_miss => apply nosyn_oracle_miss
+  | |- nosyn (get _) => apply nosyn_get
+  | |- nosyn (modify _) => apply nosyn_modify
+  | |- nosyn (lift_res (coerce_data _ _)) => apply nosyn_lift_res, ok_res_coerce
+  | |- nosyn (lift_res (array_create_value _ _)) => apply nosyn_lift_res, ok_res_create
+  | |- nosyn (lift_res (array_linear_index _ _)) => apply nosyn_lift_res, ok_res_linear
+  | |- nosyn (bind _ _) => apply nosyn_bind; [| intro]
+  | |- nosyn (repeat_m _ _ _) => apply nosyn_repeat; intro
+  | |- nosyn (if ?b then _ else _) => destruct b
+  | |- nosyn (let '(_, _) := ?x in _) => destruct x
+  | |- nosyn (match coerce_data ?n ?e with _ => _ end) =>
+      let v := fresh "v" in let E := fresh "E" in
+      destruct (coerce_data_cases n e) as [[v E]|E]; rewrite E
+  | |- nosyn (match ?x with _ => _ end) => destruct x
+  | |- nosyn _ => ns_leaf
+  end.
+
+Ltac ns_walk := repeat ns_step.
+
+Lemma nosyn_tokens_for_line l : nosyn (tokens_for_line l).
+Proof.
+  intros s. unfold tokens_for_line. destruct l as [n|]; [|exact I].
+  destruct (toks_get n (st_toks s)); exact I.
+Qed.
+#[local] Hint Resolve nosyn_tokens_for_line : nsdb.
+
+Lemma nosyn_cur_tokens : nosyn cur_tokens. Proof. unfold cur_tokens; ns_walk. Qed.
+#[local] Hint Resolve nosyn_cur_tokens : nsdb.
+Lemma nosyn_peek : nosyn peek_next_token. Proof. unfold peek_next_token; ns_walk. Qed.
+#[local] Hint Resolve nosyn_peek : nsdb.
+Lemma nosyn_has_next : nosyn has_next_token. Proof. unfold has_next_token; ns_walk. Qed.
+Lemma nosyn_advance : nosyn advance. Proof. unfold advance; ns_walk. Qed.
+#[local] Hint Resolve nosyn_has_next nosyn_advance : nsdb.
+Lemma nosyn_next_token : nosyn next_token. Proof. unfold next_token; ns_walk. Qed.
+#[local] Hint Resolve nosyn_next_token : nsdb.
+Lemma nosyn_next_unwrapped : nosyn next_unwrapped_token. Proof. unfold next_unwrapped_token; ns_walk. Qed.
+#[local] Hint Resolve nosyn_next_unwrapped : nsdb.
+Lemma nosyn_expect e : nosyn (expect_next_token e). Proof. unfold expect_next_token; ns_walk. Qed.
+Lemma nosyn_accept e : nosyn (accept_next_token e). Proof. unfold accept_next_token; ns_walk. Qed.
+Lemma nosyn_peek_is e : nosyn (peek_is e). Proof. unfold peek_is; ns_walk. Qed.
+Lemma nosyn_try {A} (f : token -> option A) : nosyn (try_next_token f).
+Proof. unfold try_next_token; ns_walk. Qed.
+Lemma nosyn_discard : nosyn discard_remaining_tokens. Proof. unfold discard_remaining_tokens; ns_walk. Qed.
+#[local] Hint Resolve nosyn_expect nosyn_accept nosyn_peek_is nosyn_try nosyn_discard : nsdb.
+Lemma nosyn_rewind_loop i e : nosyn (rewind_loop i e).
+Proof. induction i as [|i IH]; cbn [rewind_loop]; ns_walk. Qed.
+#[local] Hint Resolve nosyn_rewind_loop : nsdb.
+Lemma nosyn_rewind e : nosyn (rewind_before_token e). Proof. unfold rewind_before_token; ns_walk. Qed.
+Lemma nosyn_get_line_number : nosyn get_line_number. Proof. unfold get_line_number; ns_walk. Qed.
+Lemma nosyn_set_imm ts : nosyn (set_and_goto_immediate_line ts).
+Proof. unfold set_and_goto_immediate_line; ns_walk. Qed.
+#[local] Hint Resolve nosyn_rewind nosyn_get_line_number nosyn_set_imm : nsdb.
+Lemma nosyn_remove_loop sym : nosyn (remove_loop_with_name sym).
+Proof. unfold remove_loop_with_name; ns_walk. Qed.
+Lemma nosyn_program_break : nosyn program_break_at_current_location.
+Proof. unfold program_break_at_current_location; ns_walk. Qed.
+Lemma nosyn_variables_set n v : nosyn (variables_set n v). Proof. unfold variables_set; ns_walk. Qed.
+Lemma nosyn_variables_get n : nosyn (variables_get n). Proof. unfold variables_get; ns_walk. Qed.
+#[local] Hint Resolve nosyn_remove_loop nosyn_program_break nosyn_variables_set nosyn_variables_get : nsdb.
+Lemma nosyn_start_loop sym a b c : nosyn (start_loop sym a b c). Proof. unfold start_loop; ns_walk. Qed.
+Lemma nosyn_end_loop sym : nosyn (end_loop sym). Proof. unfold end_loop; ns_walk. Qed.
+Lemma nosyn_reset_data : nosyn reset_data_cursor. Proof. unfold reset_data_cursor; ns_walk. Qed.
+Lemma nosyn_program_end : nosyn program_end. Proof. unfold program_end; ns_walk. Qed.
+Lemma nosyn_goto n : nosyn (goto_line_number n). Proof. unfold goto_line_number; ns_walk. Qed.
+#[local] Hint Resolve nosyn_start_loop nosyn_end_loop nosyn_reset_data nosyn_program_end nosyn_goto : nsdb.
+Lemma nosyn_gosub n : nosyn (gosub_line_number n). Proof. unfold gosub_line_number; ns_walk. Qed.
+Lemma nosyn_return : nosyn return_to_last_gosub. Proof. unfold return_to_last_gosub; ns_walk. Qed.
+Lemma nosyn_define_function n a : nosyn (define_function n a). Proof. unfold define_function; ns_walk. Qed.
+Lemma nosyn_push_fn n b : nosyn (push_function_call n b). Proof. unfold push_function_call; ns_walk. Qed.
+Lemma nosyn_pop_fn : nosyn pop_function_call. Proof. unfold pop_function_call; ns_walk. Qed.
+Lemma nosyn_find_var n : nosyn (find_variable_value_in_stack n).
+Proof. unfold find_variable_value_in_stack; ns_walk. Qed.
+#[local] Hint Resolve nosyn_gosub nosyn_return nosyn_define_function nosyn_push_fn nosyn_pop_fn
+  nosyn_find_var : nsdb.
+Lemma nosyn_next_data : nosyn next_data_element.
+Proof.
+  intros s. unfold next_data_element. destruct (data_it s) as [d|].
+  - destruct (data_next _ d); exact I.
+  - destruct (data_chunks (st_keys s) (st_toks s)); try exact I. destruct (data_next _ _); exact I.
+Qed.
+Lemma nosyn_is_else : nosyn is_else_of_then_clause. Proof. unfold is_else_of_then_clause; ns_walk. Qed.
+Lemma nosyn_next_line : nosyn next_line. Proof. unfold next_line; ns_walk. Qed.
+#[local] Hint Resolve nosyn_next_data nosyn_is_else nosyn_next_line : nsdb.
+Lemma nosyn_arrays_create n i : nosyn (arrays_create n i). Proof. unfold arrays_create; ns_walk. Qed.
+Lemma nosyn_maybe_default n d : nosyn (maybe_create_default_array n d).
+Proof. unfold maybe_create_default_array; ns_walk. Qed.
+#[local] Hint Resolve nosyn_arrays_create nosyn_maybe_default : nsdb.
+Lemma nosyn_arrays_get n i : nosyn (arrays_get n i). Proof. unfold arrays_get; ns_walk. Qed.
+Lemma nosyn_arrays_set n i v : nosyn (arrays_set n i v). Proof. unfold arrays_set; ns_walk. Qed.
+Lemma nosyn_rng_rnd x : nosyn (rng_rnd x). Proof. unfold rng_rnd; ns_walk. Qed.
+Lemma nosyn_push_output o : nosyn (push_output o). Proof. unfold push_output; ns_walk. Qed.
+#[local] Hint Resolve nosyn_arrays_get nosyn_arrays_set nosyn_rng_rnd nosyn_push_output : nsdb.
+Lemma nosyn_warn m : nosyn (warn m). Proof. unfold warn; ns_walk. Qed.
+#[local] Hint Resolve nosyn_warn : nsdb.
+Lemma nosyn_maybe_warn n : nosyn (maybe_warn_undeclared_array n).
+Proof. unfold maybe_warn_undeclared_array; ns_walk. Qed.
+#[local] Hint Resolve nosyn_maybe_warn : nsdb.
+
+Lemma nosyn_eval_unary o v : nosyn (eval_unary o v). Proof. unfold eval_unary; ns_walk. Qed.
+Lemma nosyn_eval_addsub o a b : nosyn (eval_addsub o a b). Proof. unfold eval_addsub; ns_walk. Qed.
+Lemma nosyn_eval_muldiv o a b : nosyn (eval_muldiv o a b). Proof. unfold eval_muldiv; ns_walk. Qed.
+Lemma nosyn_eval_eq o a b : nosyn (eval_eq o a b). Proof. unfold eval_eq; ns_walk. Qed.
+Lemma nosyn_eval_and a b : nosyn (eval_and a b). Proof. unfold eval_and; ns_walk. Qed.
+Lemma nosyn_eval_or a b : nosyn (eval_or a b). Proof. unfold eval_or; ns_walk. Qed.
+Lemma nosyn_eval_pow a b : nosyn (eval_pow a b). Proof. unfold eval_pow; ns_walk. Qed.
+Lemma nosyn_expect_number v : nosyn (expect_number v). Proof. unfold expect_number; ns_walk. Qed.
+#[local] Hint Resolve nosyn_eval_unary nosyn_eval_addsub nosyn_eval_muldiv nosyn_eval_eq nosyn_eval_and
+  nosyn_eval_or nosyn_eval_pow nosyn_expect_number : nsdb.
+
+Section NosynExpr.
+  Variable fuel : nat.
+  Variable rec : M value.
+  Hypothesis Hrec : nosyn rec.
+  Hint Resolve Hrec : nsdb.
+
+  Lemma nosyn_bind_arguments args : forall i n b, nosyn (bind_arguments rec args i n b).
+  Proof. induction args as [|a args IH]; intros i n b; cbn [bind_arguments]; ns_walk. Qed.
+
+  Lemma nosyn_call_body : nosyn (call_body rec).
+  Proof.
+    intros s. unfold call_body. pose proof (Hrec s) as H1.
+    destruct (rec s) as [[v|e l|p| |] s1]; cbn [fst] in *; try exact I.
+    - pose proof (nosyn_pop_fn s1) as H2.
+      destruct (pop_function_call s1) as [[u|e2 l2|p2| |] s2]; cbn [fst] in *; try exact I; exact H2.
+    - pose proof (nosyn_pop_fn s1) as H2.
+      destruct (pop_function_call s1) as [[u|e2 l2|p2| |] s2]; cbn [fst] in *; try exact I;
+        [destruct e; try exact I; exact H1 | exact H2].
+  Qed.
+  Hint Resolve nosyn_bind_arguments nosyn_call_body : nsdb.
+
+  Lemma nosyn_array_index : nosyn (evaluate_array_index fuel rec).
+  Proof. unfold evaluate_array_index; ns_walk. Qed.
+  Lemma nosyn_unary_arg : nosyn (unary_number_function_arg rec).
+  Proof. unfold unary_number_function_arg; ns_walk. Qed.
+  Hint Resolve nosyn_array_index nosyn_unary_arg : nsdb.
+  Lemma nosyn_user_function_call name : nosyn (user_function_call rec name).
+  Proof. unfold user_function_call; ns_walk. Qed.
+  Hint Resolve nosyn_user_function_call : nsdb.
+  Lemma nosyn_function_call name : nosyn (function_call rec name).
+  Proof. unfold function_call; ns_walk. Qed.
+  Hint Resolve nosyn_function_call : nsdb.
+  Lemma nosyn_expression_term : nosyn (expression_term fuel rec).
+  Proof. unfold expression_term; ns_walk. Qed.
+  Hint Resolve nosyn_expression_term : nsdb.
+  Lemma nosyn_parenthesized : nosyn (parenthesized_expression fuel rec).
+  Proof. unfold parenthesized_expression; ns_walk. Qed.
+  Hint Resolve nosyn_parenthesized : nsdb.
+  Lemma nosyn_unary_operator : nosyn (unary_operator fuel rec).
+  Proof. unfold unary_operator; ns_walk. Qed.
+
+  Lemma nosyn_tier {O} (g : M (option O)) (operand : M value) (ap : O -> value -> value -> M value) :
+    nosyn g -> nosyn operand -> (forall o a b, nosyn (ap o a b)) -> nosyn (tier fuel g operand ap).
+  Proof. intros Hg Ho Ha. unfold tier; ns_walk; auto. Qed.
+
+  Lemma nosyn_accept_as {O} t (o : O) : nosyn (accept_as t o).
+  Proof. unfold accept_as; ns_walk. Qed.
+
+  Lemma nosyn_logical_or : nosyn (logical_or_expression fuel rec).
+  Proof.
+    unfold logical_or_expression, logical_and_expression, equality_expression,
+      plus_or_minus_expression, multiply_or_divide_expression, exponent_expression.
+    repeat (apply nosyn_tier;
+            [ first [apply nosyn_accept_as | apply nosyn_try] | | intros; ns_leaf ]).
+    apply nosyn_unary_operator.
+  Qed.
+End NosynExpr.
+
+Lemma nosyn_evaluate_expression fuel : forall n, nosyn (evaluate_expression fuel n).
+Proof.
+  induction fuel as [|k IH]; intros n; cbn [evaluate_expression].
+  - apply nosyn_out_of_fuel.
+  - destruct (Nat.eqb n max_nesting); [apply nosyn_fail; intros ?; discriminate|].
+    apply nosyn_logical_or; apply IH.
+Qed.
+#[local] Hint Resolve nosyn_evaluate_expression : nsdb.
+
+Section NosynStmt.
+  Variable fuel : nat.
+  Variable nest : nat.
+  Variable rec : M unit.
+  Hypothesis Hrec : nosyn rec.
+  Hint Resolve Hrec : nsdb.
+
+  Lemma nosyn_expr : nosyn (expr fuel nest). Proof. unfold expr; ns_leaf. Qed.
+  Hint Resolve nosyn_expr : nsdb.
+  Lemma nosyn_array_index_expr : nosyn (evaluate_array_index fuel (expr fuel nest)).
+  Proof. apply nosyn_array_index, nosyn_expr. Qed.
+  Hint Resolve nosyn_array_index_expr : nsdb.
+  Lemma nosyn_optional_index : nosyn (parse_optional_array_index fuel nest).
+  Proof. unfold parse_optional_array_index; ns_walk. Qed.
+  Hint Resolve nosyn_optional_index : nsdb.
+  Lemma nosyn_await : nosyn rewind_program_and_await_input.
+  Proof. unfold rewind_program_and_await_input; ns_walk. Qed.
+  Lemma nosyn_break : nosyn break_at_current_location.
+  Proof. unfold break_at_current_location; ns_walk. Qed.
+  Lemma nosyn_goto_stmt : nosyn evaluate_goto_statement.
+  Proof. unfold evaluate_goto_statement; ns_walk. Qed.
+  Lemma nosyn_gosub_stmt : nosyn evaluate_gosub_statement.
+  Proof. unfold evaluate_gosub_statement; ns_walk. Qed.
+  Hint Resolve nosyn_await nosyn_break nosyn_goto_stmt nosyn_gosub_stmt : nsdb.
+  Lemma nosyn_stmt_or_goto : nosyn (statement_or_goto_line_number rec).
+  Proof. unfold statement_or_goto_line_number; ns_walk. Qed.
+  Hint Resolve nosyn_stmt_or_goto : nsdb.
+  Lemma nosyn_if : nosyn (evaluate_if_statement fuel nest rec).
+  Proof. unfold evaluate_if_statement; ns_walk. Qed.
+  Lemma nosyn_assign lv v : nosyn (assign_value lv v).
+  Proof. unfold assign_value; ns_walk. Qed.
+  Hint Resolve nosyn_if nosyn_assign : nsdb.
+  Lemma nosyn_assignment sym : nosyn (evaluate_assignment_statement fuel nest sym).
+  Proof. unfold evaluate_assignment_statement; ns_walk. Qed.
+  Hint Resolve nosyn_assignment : nsdb.
+  Lemma nosyn_let : nosyn (evaluate_let_statement fuel nest).
+  Proof. unfold evaluate_let_statement; ns_walk. Qed.
+  Lemma nosyn_parse_lvalue : nosyn (parse_lvalue fuel nest).
+  Proof. unfold parse_lvalue; ns_walk. Qed.
+  Hint Resolve nosyn_let nosyn_parse_lvalue : nsdb.
+  Lemma nosyn_read : nosyn (evaluate_read_statement fuel nest).
+  Proof. unfold evaluate_read_statement; ns_walk. Qed.
+  Lemma nosyn_take_input : nosyn take_input.
+  Proof. unfold take_input; ns_walk. Qed.
+  Hint Resolve nosyn_read nosyn_take_input : nsdb.
+  Lemma nosyn_input : nosyn (evaluate_input_statement fuel nest).
+  Proof. unfold evaluate_input_statement; ns_walk. Qed.
+  Lemma nosyn_dim : nosyn (evaluate_dim_statement fuel nest).
+  Proof. unfold evaluate_dim_statement; ns_walk. Qed.
+  Lemma nosyn_print : nosyn (evaluate_print_statement fuel nest).
+  Proof. unfold evaluate_print_statement; ns_walk. Qed.
+  Lemma nosyn_for : nosyn (evaluate_for_statement fuel nest).
+  Proof. unfold evaluate_for_statement; ns_walk. Qed.
+  Lemma nosyn_next_stmt : nosyn evaluate_next_statement.
+  Proof. unfold evaluate_next_statement; ns_walk. Qed.
+  Lemma nosyn_def : nosyn (evaluate_def_statement fuel).
+  Proof. unfold evaluate_def_statement; ns_walk. Qed.
+  Hint Resolve nosyn_input nosyn_dim nosyn_print nosyn_for nosyn_next_stmt nosyn_def : nsdb.
+
+  Lemma nosyn_statement_body : nosyn (evaluate_statement_body fuel nest rec).
+  Proof. unfold evaluate_statement_body; ns_walk. Qed.
+End NosynStmt.
+
+Lemma nosyn_evaluate_statement fuel : forall n, nosyn (evaluate_statement fuel n).
+Proof.
+  induction fuel as [|k IH]; intros n; cbn [evaluate_statement].
+  - apply nosyn_out_of_fuel.
+  - destruct (Nat.eqb n max_nesting); [apply nosyn_fail; intros ?; discriminate|].
+    apply nosyn_statement_body; apply IH.
+Qed.
+#[local] Hint Resolve nosyn_evaluate_statement : nsdb.
+
+Theorem nosyn_run_next_statement fuel : nosyn (run_next_statement fuel).
+Proof. unfold run_next_statement, return_to_idle_state; ns_walk. Qed.
+
+(* ------------------------------------------------------------------ *)
+(* 1. Break, then CONT, while the program is running *)
+
+Definition drain (s : interp) : interp := set_outputs [] s.
+
+Definition CONT : bytes := bs "CONT".
+
+(* what the host's break call does (before the output is taken) *)
+Lemma host_break_eq s :
+  host_break s =
+  (Ok tt, imm_reset [] (set_breakpoint (numbered_of (loc s))
+            (set_outputs (outputs s ++ [OBreak (loc_line (loc s))]) (set_state Idle s)))).
+Proof. reflexivity. Qed.
+
+(* the state after a break at token [i] of line [n], output taken *)
+Definition broken (n : N) (i : nat) (s : interp) : interp :=
+  mkinterp (st_toks s) (st_keys s) [] imm0 (Some (n, i)) (stack s) (loops s) (data_it s) (functions s)
+           (input s) [] Idle (rng s) (variables s) (arrays s)
+           (enable_warnings s) (enable_tracing s) (pow_oracle s) 0.
+
+Lemma step_break fuel s n :
+  state s = Running \/ state s = AwaitingInput -> loc_line (loc s) = Some n ->
+  step fuel s HBreak =
+  (Some (render_row (Ok tt) None (outputs s ++ [OBreak (Some n)]) (broken n (loc_idx (loc s)) s)),
+   broken n (loc_idx (loc s)) s).
+Proof.
+  intros Hst Hl. unfold step.
+  assert (Hleg : legal s HBreak = true) by (unfold legal; destruct Hst as [-> | ->]; reflexivity).
+  rewrite Hleg. cbn [negb]. rewrite host_break_eq, make_row_render.
+  unfold imm_reset, numbered_of, broken. cbn [loc outputs set_reads set_state set_outputs set_breakpoint
+    breakpoint]. rewrite Hl. reflexivity.
+Qed.
+
+(* CONT at a pending breakpoint: restore the cursor, clear the breakpoint and
+   the immediate line, and run the next statement *)
+Lemma evaluate_impl_CONT fuel s p :
+  state s = Idle -> breakpoint s = Some p ->
+  evaluate_impl fuel CONT s =
+  run_next_statement fuel (set_breakpoint None (set_loc (loc_of_numbered p) (set_immediate [] s))).
+Proof.
+  intros Hidle Hbp. unfold evaluate_impl, CONT. rewrite bind_get, Hidle.
+  rewrite set_imm_is_modify, bind_modify, command_of_CONT.
+  cbn [process_command]. unfold continue_from_breakpoint.
+  rewrite set_imm_is_modify, bind_assoc, bind_modify, bind_assoc, bind_get.
+  assert (H : breakpoint (imm_reset [] (imm_reset [] s)) = Some p)
+    by (unfold imm_reset; rewrite Hbp; cbn; rewrite Hbp; exact Hbp).
+  rewrite H, bind_modify. f_equal.
+  unfold imm_reset. rewrite Hbp. cbn [breakpoint set_loc set_immediate]. rewrite Hbp.
+  destruct s; reflexivity.
+Qed.
+
+(* [run_next_statement] overwrites the host-visible state first *)
+Lemma rns_state fuel s1 s2 :
+  set_state Running s1 = set_state Running s2 -> run_next_statement fuel s1 = run_next_statement fuel s2.
+Proof. intros H. unfold run_next_statement. rewrite !bind_modify, H. reflexivity. Qed.
+
+(* the source text of the call only matters for tokenizer errors *)
+Lemma caret_text_line (r : res unit) line1 line2 s :
+  ok_res r -> caret_text r line1 s = caret_text r line2 s.
+Proof.
+  intros H. unfold caret_text. destruct r as [u|e l|p| |]; try reflexivity.
+  unfold render_caret. destruct e; cbn in H; try contradiction; destruct line1, line2; reflexivity.
+Qed.
+
+Lemma ok_res_postprocess {A} (x : res A * interp) : ok_res (fst x) -> ok_res (fst (postprocess x)).
+Proof. destruct x as [[a|e l|p| |] s]; cbn; auto. Qed.
+
+Lemma render_row_line r line1 line2 outs s :
+  ok_res r -> render_row r line1 outs s = render_row r line2 outs s.
+Proof. intros H. unfold render_row. rewrite (caret_text_line r line1 line2 s H). reflexivity. Qed.
+
+(* the state from which break-then-CONT resumes is the interrupted state *)
+Lemma resume_state s n :
+  state s = Running \/ state s = AwaitingInput ->
+  loc_line (loc s) = Some n -> breakpoint s = None -> immediate s = [] -> outputs s = [] ->
+  set_state Running
+    (set_breakpoint None (set_loc (loc_of_numbered (n, loc_idx (loc s)))
+       (set_immediate [] (set_reads 0 (broken n (loc_idx (loc s)) s)))))
+  = set_state Running (set_reads 0 s).
+Proof.
+  intros _ Hl Hbp Himm Hout. unfold broken, loc_of_numbered.
+  destruct s as [tk ks im [ln li] bp st lp di fs inp outs stt rg vs ars w tr orc rd].
+  cbn in *. subst. reflexivity.
+Qed.
+
+(* Theorem 1.  The complete states after break+CONT and after a plain
+   continue are equal, the two rows are equal in every field, and the break
+   call itself shows exactly the BREAK notice and an idle interpreter. *)
+Theorem break_cont_running fuel s n :
+  state s = Running -> loc_line (loc s) = Some n ->
+  breakpoint s = None -> immediate s = [] -> outputs s = [] ->
+  let '(rb, s1) := step fuel s HBreak in
+  let '(rc, s2) := step fuel s1 (HLine CONT) in
+  let '(r, s') := step fuel s HCont in
+  s2 = s' /\ rc = r
+  /\ exists row, rb = Some row
+       /\ r_outputs row = outputs_text [OBreak (Some n)]
+       /\ r_state row = show_state Idle
+       /\ r_outcome row = bs "ok".
+Proof.
+  intros Hst Hl Hbp Himm Hout.
+  rewrite (step_break fuel s n (or_introl Hst) Hl).
+  set (sb := broken n (loc_idx (loc s)) s).
+  unfold step at 1. change (legal sb (HLine CONT)) with true. cbn [negb].
+  unfold start_evaluating.
+  rewrite (evaluate_impl_CONT fuel (set_reads 0 sb) (n, loc_idx (loc s))) by reflexivity.
+  rewrite (rns_state fuel _ (set_reads 0 s))
+    by (apply resume_state; auto).
+  unfold step. unfold legal. rewrite Hst. cbn [negb].
+  unfold continue_evaluating. change (state (set_reads 0 s)) with (state s). rewrite Hst.
+  pose proof (ok_res_postprocess _ (nosyn_run_next_statement fuel (set_reads 0 s))) as Hok.
+  destruct (postprocess (run_next_statement fuel (set_reads 0 s))) as [r s1]. cbn [fst] in Hok.
+  rewrite !make_row_render.
+  split; [reflexivity|]. split; [f_equal; apply render_row_line; exact Hok|].
+  eexists. split; [reflexivity|]. rewrite Hout. repeat split.
+Qed.
+
+(* the same as one equation between host calls *)
+Corollary break_cont_is_continue fuel s n :
+  state s = Running -> loc_line (loc s) = Some n ->
+  breakpoint s = None -> immediate s = [] -> outputs s = [] ->
+  step fuel (snd (step fuel s HBreak)) (HLine CONT) = step fuel s HCont.
+Proof.
+  intros Hst Hl Hbp Himm Hout.
+  pose proof (break_cont_running fuel s n Hst Hl Hbp Himm Hout) as H.
+  destruct (step fuel s HBreak) as [rb s1]. cbn [snd].
+  destruct (step fuel s1 (HLine CONT)) as [rc s2].
+  destruct (step fuel s HCont) as [r s'].
+  destruct H as (-> & -> & _). reflexivity.
+Qed.
+
+(* ------------------------------------------------------------------ *)
+(* 2. Break, then CONT, while the program is awaiting input *)
+
+Lemma peek_ok_inv s t :
+  fst (peek_next_token s) = Ok t ->
+  line_exists s (loc s) /\ nth_error (cur_toks s) (loc_idx (loc s)) = t.
+Proof.
+  unfold peek_next_token. rewrite bind_modify.
+  unfold cur_tokens, bind, get, tokens_for_line, ret, line_exists, line_ok, cur_toks.
+  cbn [loc st_toks immediate set_reads].
+  destruct (loc_line (loc s)) as [n|]; [destruct (toks_get n (st_toks s))|];
+    cbn [fst]; intros H; inversion H; split; congruence || exact I.
+Qed.
+
+Lemma has_next_eq s :
+  line_exists s (loc s) ->
+  has_next_token s =
+  (Ok (match nth_error (cur_toks s) (loc_idx (loc s)) with Some _ => true | None => false end), bump s).
+Proof. intros H. unfold has_next_token. rewrite bind_run, (peek_eq s H). reflexivity. Qed.
+
+Definition trace_out (s : interp) : list output :=
+  if enable_tracing s then match loc_line (loc s) with Some n => [OTrace n] | None => [] end else [].
+
